@@ -475,6 +475,9 @@ func (e *Engine) contractOf(fn *ssa.Function) *Contract {
 		return nil
 	}
 	if ct, ok := e.contracts[fnKey(fn)]; ok {
+		if ct.Standalone {
+			return nil
+		}
 		return ct
 	}
 	if fn.Pkg == nil || e.names == nil {
